@@ -22,12 +22,12 @@ const SPEC: Spec = Spec {
     rule: "states = distinct (private representation, model value, depth) triples reached by histories of in-place public operations from every initial construction; every state is observed through Eq/Ord/Hash/exports and compared with a freshly built canonical object of the model value; non-trivial = reached by at least one mutation and multi-digit or capacity-slack (capacity > len)",
     assumptions: &[
         "depth-bounded: histories of at most D in-place operations from each initial construction; operand pool fixed (9 operands)",
-        "states whose magnitude exceeds 8 digits are observed but not expanded",
+        "states whose magnitude exceeds 20 digits are observed but not expanded",
         "std DefaultHasher (SipHash with fixed keys) stands for 'hash identically'",
         "quickcheck Gen::new (entropy-seeded) is not called; Gen::from_size_and_seed is enumerated instead",
     ],
-    bounds_quick: "BigInt and BigUint models: depth 3 from all initial constructions (13 values x 4 construction ways + inconsistent sign/magnitude requests), ~75 actions per state; generators: arbitrary over all byte strings {00,01,ff}^<=8, quickcheck (size<=8, seed<1024), shrink of the pool",
-    bounds_thorough: "BigInt and BigUint models: depth 5 (digit cap 8; ~4.6*10^7 states, ~8 min, 4.3 GB); generators: arbitrary over {00,01,ff}^<=10, quickcheck (size<=8, seed<4096)",
+    bounds_quick: "BigInt and BigUint models: depth 3 from all initial constructions (13 values x 5 construction ways (incl. small and large slack capacity) + inconsistent sign/magnitude requests), ~75 actions per state; generators: arbitrary over all byte strings {00,01,ff}^<=8, quickcheck (size<=8, seed<1024), shrink of the pool",
+    bounds_thorough: "BigInt and BigUint models: depth 5 (digit cap 20; ~4.6*10^7 states, ~8 min, 4.3 GB); generators: arbitrary over {00,01,ff}^<=10, quickcheck (size<=8, seed<4096)",
     hang_secs: 120,
     probes: None,
     max_workers: 1,
@@ -175,9 +175,9 @@ enum Act {
     Not,
 }
 const OPS: [&str; 8] = ["+=", "-=", "*=", "/=", "%=", "&=", "|=", "^="];
-const SHIFTS: [u32; 5] = [1, 63, 64, 65, 130];
+const SHIFTS: [u32; 6] = [1, 63, 64, 65, 130, 1000];
 const BITS: [u32; 5] = [0, 63, 64, 127, 200];
-const MAXLEN: usize = 8;
+const MAXLEN: usize = 20; // states above this many digits are observed but not expanded
 
 fn slices() -> Vec<Vec<u32>> {
     vec![vec![], vec![0, 0, 0], vec![7], vec![7, 0, 0, 0, 0], vec![0, 0, 1, 0], vec![u32::MAX; 5], vec![1, 2, 3, 4, 5, 6, 7, 0, 0]]
@@ -192,10 +192,11 @@ fn operand_pool_int() -> Vec<Int> {
         Int::new(false, Nat::from_digits(&[0, 1])),
         Int::new(true, Nat::from_digits(&[0, 1])),
         Int::new(false, Nat::from_digits(&[alpha::M, alpha::M])),
+        Int::new(false, Nat::from_digits(&[5, 1])),
     ]
 }
-const SELF_IDX: u8 = 7;
-const NEGSELF_IDX: u8 = 8;
+const SELF_IDX: u8 = 8;
+const NEGSELF_IDX: u8 = 9;
 
 fn init_vals() -> Vec<Int> {
     vec![
@@ -214,7 +215,7 @@ fn init_vals() -> Vec<Int> {
         Int::new(true, Nat::from_digits(&[0x1_0000_0000])),
     ]
 }
-const NWAYS: usize = 4;
+const NWAYS: usize = 5;
 const NINCONS: usize = 6;
 
 fn sgn(neg: bool, zero: bool) -> Sign {
@@ -248,12 +249,19 @@ fn init_int(id: usize) -> (BigInt, Int, String) {
                 b.extend_from_slice(&[0u8; 9]);
                 BigInt::from_bytes_le(s_req, &b)
             }
-            _ => {
+            3 => {
                 let t = BigInt::from_slice(sgn(v.neg, v.is_zero()), &u32d);
                 (t << 200u32) >> 200u32
             }
+            _ => {
+                // large slack: the buffer keeps room for ~32 more digits
+                let mut t = BigInt::from_slice(sgn(v.neg, v.is_zero()), &u32d);
+                t <<= 2000u32;
+                t >>= 2000u32;
+                t
+            }
         };
-        let desc = format!("init value {} way {}", v.to_hex(), ["from_slice", "new+zero words", "from_bytes_le+zero bytes", "(x<<200)>>200"][way]);
+        let desc = format!("init value {} way {}", v.to_hex(), ["from_slice", "new+zero words", "from_bytes_le+zero bytes", "(x<<200)>>200", "x<<=2000; x>>=2000"][way]);
         (x, v, desc)
     } else {
         let k = id - vals.len() * NWAYS;
@@ -285,7 +293,7 @@ fn enabled_int(v: &Int, out: &mut Vec<Act>) {
         return;
     }
     for op in 0..8u8 {
-        for idx in 0..9u8 {
+        for idx in 0..=NEGSELF_IDX {
             let o = operand_int(idx, v);
             if (op == 3 || op == 4) && o.is_zero() {
                 continue; // zero divisors belong to C03/C14
@@ -560,9 +568,9 @@ impl Model for IntModel {
 // ---------------------------------------------------------------- BigUint history model
 
 fn operand_pool_nat() -> Vec<Nat> {
-    vec![Nat::zero(), Nat::one(), Nat::from_digits(&[alpha::M]), Nat::from_digits(&[0, 1]), Nat::from_digits(&[alpha::M, alpha::M]), Nat::from_digits(&[1, 0, 1])]
+    vec![Nat::zero(), Nat::one(), Nat::from_digits(&[alpha::M]), Nat::from_digits(&[0, 1]), Nat::from_digits(&[alpha::M, alpha::M]), Nat::from_digits(&[1, 0, 1]), Nat::from_digits(&[5, 1])]
 }
-const USELF: u8 = 6;
+const USELF: u8 = 7;
 fn uinit_vals() -> Vec<Nat> {
     vec![
         Nat::zero(),
@@ -594,9 +602,15 @@ fn init_uint(id: usize) -> (BigUint, Nat, String) {
             b.extend_from_slice(&[0u8; 9]);
             BigUint::from_bytes_le(&b)
         }
-        _ => (BigUint::from_slice(&u32d) << 200u32) >> 200u32,
+        3 => (BigUint::from_slice(&u32d) << 200u32) >> 200u32,
+        _ => {
+            let mut t = BigUint::from_slice(&u32d);
+            t <<= 2000u32;
+            t >>= 2000u32;
+            t
+        }
     };
-    (x, v.clone(), format!("init value {} way {}", v.to_hex(), ["from_slice", "new+zero words", "from_bytes_le+zero bytes", "(x<<200)>>200"][way]))
+    (x, v.clone(), format!("init value {} way {}", v.to_hex(), ["from_slice", "new+zero words", "from_bytes_le+zero bytes", "(x<<200)>>200", "x<<=2000; x>>=2000"][way]))
 }
 fn operand_nat(idx: u8, cur: &Nat) -> Nat {
     if idx == USELF {
@@ -607,7 +621,7 @@ fn operand_nat(idx: u8, cur: &Nat) -> Nat {
 }
 fn enabled_uint(v: &Nat, out: &mut Vec<Act>) {
     for op in 0..8u8 {
-        for idx in 0..7u8 {
+        for idx in 0..=USELF {
             let o = operand_nat(idx, v);
             if (op == 3 || op == 4) && o.is_zero() {
                 continue;
